@@ -4,20 +4,24 @@ From Coq Require Import Lia Permutation Sorting.Sorted.
 From RV Require Import Term.Model Term.Proofs Term.Sort.
 Local Open Scope N_scope.
 
-Inductive skey := KNon (r : N) (s : str) | KInt (z : Z) | KStr (l : option str) (lex : str).
+Inductive skey := KNon (r : N) (s : str) | KBool (b : bool) | KInt (z : Z) | KStr (l : option str) (lex : str).
 
 Definition skey_of (t : term) : skey :=
   match t with
-  | Lit lex dt lang => match lit_class lex dt lang with CInt z => KInt z | _ => KStr (lang_key lang) lex end
+  | Lit lex dt lang => match lit_class lex dt lang with CInt z => KInt z | CBool b => KBool b | _ => KStr (lang_key lang) lex end
   | _ => KNon (rank (kind_of t)) (term_str t)
   end.
 
-(* non-literals by (kind, string), then integers by value, then strings by (tag, lexical form) *)
+(* non-literals by (kind, string), then booleans (false < true), integers by value, strings by (tag, lexical form):
+   the three datatype IRIs ...#boolean < ...#integer < ...#string order the literal families *)
 Definition key_lt (a b : skey) : bool :=
   match a, b with
   | KNon r s, KNon r' s' => N.ltb r r' || (N.eqb r r' && str_ltb s s')
   | KNon _ _, _ => true
   | _, KNon _ _ => false
+  | KBool b, KBool b' => negb b && b'
+  | KBool _, _ => true
+  | _, KBool _ => false
   | KInt z, KInt z' => Z.ltb z z'
   | KInt _, KStr _ _ => true
   | KStr _ _, KInt _ => false
@@ -37,13 +41,14 @@ Lemma key_lt_irrefl : forall a, key_lt a a = false.
 Proof.
   destruct a; simpl.
   - rewrite N.ltb_irrefl, N.eqb_refl, str_ltb_irrefl. reflexivity.
+  - destruct b; reflexivity.
   - apply Z.ltb_irrefl.
   - apply skey_ltb_irrefl.
 Qed.
 
 Lemma key_lt_trans : forall a b c, key_lt a b = true -> key_lt b c = true -> key_lt a c = true.
 Proof.
-  destruct a as [r s|z|l x], b as [r' s'|z'|l' x'], c as [r'' s''|z''|l'' x'']; simpl; intros H1 H2;
+  destruct a as [r s|q|z|l x], b as [r' s'|q'|z'|l' x'], c as [r'' s''|q''|z''|l'' x'']; simpl; intros H1 H2;
     try discriminate; auto.
   - apply orb_true_iff in H1. apply orb_true_iff in H2. apply orb_true_iff.
     destruct H1 as [H1|H1], H2 as [H2|H2].
@@ -52,6 +57,7 @@ Proof.
     + apply andb_true_iff in H1 as [E _]. apply N.eqb_eq in E. subst. auto.
     + apply andb_true_iff in H1 as [E1 A]. apply andb_true_iff in H2 as [E2 B].
       apply N.eqb_eq in E1, E2. subst. right. rewrite N.eqb_refl. simpl. eauto using str_ltb_trans.
+  - destruct q, q', q''; simpl in *; congruence.
   - apply Z.ltb_lt in H1, H2. apply Z.ltb_lt. lia.
   - eauto using skey_ltb_trans.
 Qed.
@@ -59,10 +65,11 @@ Qed.
 (* the order is total on keys *)
 Lemma key_lt_total : forall a b, key_lt a b = false -> key_lt b a = false -> a = b.
 Proof.
-  destruct a as [r s|z|l x], b as [r' s'|z'|l' x']; simpl; intros H1 H2; try discriminate.
+  destruct a as [r s|q|z|l x], b as [r' s'|q'|z'|l' x']; simpl; intros H1 H2; try discriminate.
   - apply orb_false_iff in H1 as [A1 B1]. apply orb_false_iff in H2 as [A2 B2].
     apply N.ltb_ge in A1, A2. assert (r = r') by lia. subst. rewrite N.eqb_refl in *. simpl in *.
     destruct (str_ltb_total s s') as [H|[H|H]]; congruence.
+  - destruct q, q'; simpl in *; congruence.
   - apply Z.ltb_ge in H1, H2. f_equal. lia.
   - unfold skey_ltb in *. apply orb_false_iff in H1 as [A1 B1]. apply orb_false_iff in H2 as [A2 B2].
     pose proof (olang_total _ _ A1 A2). subst. rewrite ostr_eqb_refl in *. simpl in *.
@@ -81,6 +88,16 @@ Qed.
 Lemma int_before_string : str_ltb xsd_integer xsd_string = true /\ str_ltb xsd_string xsd_integer = false
                           /\ str_eqb xsd_string xsd_integer = false /\ str_eqb xsd_integer xsd_string = false.
 Proof. vm_compute. auto. Qed.
+
+Lemma bool_before_all :
+  str_ltb xsd_boolean xsd_integer = true /\ str_ltb xsd_integer xsd_boolean = false
+  /\ str_ltb xsd_boolean xsd_string = true /\ str_ltb xsd_string xsd_boolean = false
+  /\ str_eqb xsd_boolean xsd_integer = false /\ str_eqb xsd_integer xsd_boolean = false
+  /\ str_eqb xsd_boolean xsd_string = false /\ str_eqb xsd_string xsd_boolean = false.
+Proof. vm_compute. repeat split; reflexivity. Qed.
+
+Lemma class_bool_dtkey : forall lex dt lang b, lit_class lex dt lang = CBool b -> dt_or_string dt = xsd_boolean.
+Proof. intros lex dt lang b H. rewrite (class_bool_dt _ _ _ _ H). reflexivity. Qed.
 
 Lemma class_str_dtkey : forall lex dt lang, lit_class lex dt lang = CStr -> dt_or_string dt = xsd_string.
 Proof. intros lex dt lang H. destruct (class_str_dt _ _ _ H); subst; reflexivity. Qed.
@@ -117,14 +134,24 @@ Proof.
     try (cbn [term_lt skey_of]; destruct (lit_class lex dt lang); reflexivity).
   - (* two literals *)
     cbn [modelled] in Ma, Mb. cbn [skey_of].
-    destruct (lit_class lex dt lang) as [|x|] eqn:C1; try discriminate;
-      destruct (lit_class lex' dt' lang') as [|y|] eqn:C2; try discriminate.
+    destruct bool_before_all as [B1 [B2 [B3 [B4 [B5 [B6 [B7 B8]]]]]]].
+    destruct (lit_class lex dt lang) as [|x|x|] eqn:C1; try discriminate;
+      destruct (lit_class lex' dt' lang') as [|y|y|] eqn:C2; try discriminate.
     + rewrite lit_lt_str by assumption. reflexivity.
     + cbn [term_lt]. unfold lit_gt. rewrite C1, C2.
       rewrite (class_str_dtkey _ _ _ C1), (class_int_dtkey _ _ _ _ C2), I4, I2. reflexivity.
     + cbn [term_lt]. unfold lit_gt. rewrite C1, C2.
+      rewrite (class_str_dtkey _ _ _ C1), (class_bool_dtkey _ _ _ _ C2), B7, B4. reflexivity.
+    + cbn [term_lt]. unfold lit_gt. rewrite C1, C2.
       rewrite (class_int_dtkey _ _ _ _ C1), (class_str_dtkey _ _ _ C2), I3, I1. reflexivity.
     + cbn [term_lt]. unfold lit_gt. rewrite C1, C2. cbn [key_lt]. f_equal. apply Z.gtb_ltb.
+    + cbn [term_lt]. unfold lit_gt. rewrite C1, C2.
+      rewrite (class_int_dtkey _ _ _ _ C1), (class_bool_dtkey _ _ _ _ C2), B5, B2. reflexivity.
+    + cbn [term_lt]. unfold lit_gt. rewrite C1, C2.
+      rewrite (class_bool_dtkey _ _ _ _ C1), (class_str_dtkey _ _ _ C2), B8, B3. reflexivity.
+    + cbn [term_lt]. unfold lit_gt. rewrite C1, C2.
+      rewrite (class_bool_dtkey _ _ _ _ C1), (class_int_dtkey _ _ _ _ C2), B6, B1. reflexivity.
+    + cbn [term_lt]. unfold lit_gt. rewrite C1, C2. cbn [key_lt]. rewrite andb_comm. reflexivity.
 Qed.
 
 (* < on modelled terms is a strict weak order *)
